@@ -4,6 +4,7 @@ import PetgraphModel.Proofs.Acyclic
 import PetgraphModel.Proofs.AcyclicPK
 import PetgraphModel.Proofs.AcyclicNP
 import PetgraphModel.Proofs.AcyclicTS
+import PetgraphModel.Proofs.C14W2Topo
 /-
 C14 — `Acyclic<G>` never lets a cycle in and keeps a valid topological order.
 
@@ -21,8 +22,10 @@ Only property theorems live here; helper lemmas are in `Proofs/Acyclic*.lean`.  
     - `C14_reject_unchanged`, `C14_valid_edge_predicts`, `C14_is_valid_edge_pure`,
     - `C14_remove_absent_noop`, `C14_remove_keeps_others`  (D16 / D17 stay fixed),
     - `C14_no_panic*`           no mirrored assert / debug_assert / unreachable / bound check fires and the fuel suffices,
-    - `C14_try_from_graph_sound` accepted ⇒ invariant + valid order (⇒ acyclic);
-  not proved: `C14_try_from_graph_complete_statement` (acyclic ⇒ accepted), judged on every run instead.
+    - `C14_try_from_graph_sound` accepted ⇒ invariant + valid order (⇒ acyclic),
+    - `C14_try_from_graph_complete` acyclic ⇒ accepted, given the fuel hypothesis `TopoFuelOk`
+      (`C14_try_from_graph_complete_statement` without it is false: `…_statement_false_witness`),
+      `C14_try_from_graph_no_false_cycle` (no fuel hypothesis), `C14_try_from_graph_exact` (⇔).
 
 The inner graph is a parameter of the model: a call comes with the graph `v'` the inner `G` leaves
 behind, constrained only by `Call.InnerOk` / `EdgesOk` (which indices are live and which edges exist
@@ -31,7 +34,7 @@ afterwards) — so the theorems hold for `DiGraph` (whose `remove_node` renumber
 -/
 namespace PetgraphModel.C14T
 open PetgraphModel PetgraphModel.MGraph PetgraphModel.Oracle PetgraphModel.Dag PetgraphModel.Acy
-open PetgraphModel.AcyProofs PetgraphModel.AcyPK PetgraphModel.AcyNP PetgraphModel.AcyTS
+open PetgraphModel.AcyProofs PetgraphModel.AcyPK PetgraphModel.AcyNP PetgraphModel.AcyTS PetgraphModel.AcyW2
 
 /-! ### the specification and its judges -/
 
@@ -337,6 +340,119 @@ theorem C14_try_from_graph_complete_partial (v : View) (s : AState) (h : tryFrom
           · cases hh
       simpa using this _ _ _ hn
 
+/-! ### `try_from_graph` completeness (wave 2)
+
+`C14_try_from_graph_complete_statement` is FALSE as written: `ViewOk` only relates the neighbour
+iterations to the edges as SETS, so a view may list one edge any number of times in `v.succ x`, and
+the first phase of the `toposort` model (one loop iteration per stack entry) then outruns `tsFuel v`,
+which is computed from the edge list.  The witness below is such a view; it is an artefact of the
+view encoding (a real `neighbors()` yields every edge once, which `./check C14` verifies on every
+graph line), not a behaviour of `acyclic.rs`.  The repaired statement adds exactly the fuel
+hypothesis — one unit per node and per neighbour-list entry, the measure `needL` already used by
+`Safe` — and drops the hypothesis `v.g.nodes.Nodup`, which is not needed. -/
+
+/-- the edge `0 → 1`, listed 25 times by the neighbour iteration of node `0` -/
+def completeWitness : View :=
+  { g := { directed := true, nodes := [0, 1], edges := [⟨0, 0, 1, 0⟩] }, nb := 2, ix := [],
+    out := [(0, List.replicate 25 (1, 0)), (1, [])], inn := [(0, []), (1, [(0, 0)])] }
+
+/-- the witness meets every hypothesis of `C14_try_from_graph_complete_statement`, and the model
+runs out of fuel on it (24 copies are still accepted: it is the smallest witness of this shape) -/
+theorem C14_try_from_graph_complete_statement_false_witness :
+    Closed completeWitness ∧ ViewOk completeWitness ∧ completeWitness.g.nodes.Nodup ∧
+    (∀ x y, y ∈ completeWitness.succ x → x ∈ completeWitness.g.nodes) ∧
+    (∀ x ∈ completeWitness.g.nodes, x < completeWitness.nb) ∧ Dag.Acyclic completeWitness.g ∧
+    tryFromGraph completeWitness = .error "FUEL" := by
+  have hadj : ∀ x y, completeWitness.g.Adj x y ↔ x = 0 ∧ y = 1 := by
+    intro x y; simp [MGraph.Adj, completeWitness, eq_comm]
+  have hsucc : ∀ x y, y ∈ completeWitness.succ x ↔ x = 0 ∧ y = 1 := by
+    intro x y
+    match x with
+    | 0 => simp [View.succ, View.outOf, completeWitness]
+    | 1 => simp [View.succ, View.outOf, completeWitness, List.lookup]
+    | n + 2 => simp [View.succ, View.outOf, completeWitness, List.lookup]
+  have hpred : ∀ x y, y ∈ completeWitness.pred x ↔ y = 0 ∧ x = 1 := by
+    intro x y
+    match x with
+    | 0 => simp [View.pred, View.innOf, completeWitness]
+    | 1 => simp [View.pred, View.innOf, completeWitness, List.lookup]
+    | n + 2 => simp [View.pred, View.innOf, completeWitness, List.lookup]
+  have htopo : toposort completeWitness = none := by decide
+  refine ⟨?_, ⟨?_, ?_⟩, by decide, ?_, by decide, ?_, ?_⟩
+  · intro x _
+    refine ⟨fun y hy => ?_, fun y hy => ?_⟩
+    · rw [((hsucc x y).mp hy).2]; decide
+    · rw [((hpred x y).mp hy).1]; decide
+  · intro x y; rw [hsucc, hadj]
+  · intro x y; rw [hpred, hadj]
+  · intro x y hy; rw [((hsucc x y).mp hy).1]; decide
+  · exact topo_acyclic (order := [0, 1]) rfl ⟨by decide, fun _ => Iff.rfl, by decide⟩
+  · unfold tryFromGraph; rw [htopo]
+
+/-- hence the statement, as written, does not hold -/
+theorem C14_try_from_graph_complete_statement_false : ¬ C14_try_from_graph_complete_statement := by
+  intro h
+  obtain ⟨hc, hv, hnd, hsrc, hnb, hac, herr⟩ := C14_try_from_graph_complete_statement_false_witness
+  obtain ⟨s, hs⟩ := h completeWitness hc hv hnd hsrc hnb hac
+  rw [herr] at hs
+  cases hs
+
+/-- the neighbour lists fit the fuel of the `toposort` model: one unit per node and per entry of its
+successor list, plus two (`needL … [] nodes = |nodes| + Σ |succ x|`, see `C14_fuelOk_of_edge_count`) -/
+def TopoFuelOk (v : View) : Prop :=
+  needL (fun x => (v.succ x).length) [] v.g.nodes + 2 ≤ tsFuel v
+
+/-- `try_from_graph` (completeness, no fuel assumption): on an acyclic view the model never answers
+`Err(Cycle(_))` and never fails the bound check of `node_to_pos` — it accepts, unless its own fuel
+runs out in `toposort`. -/
+theorem C14_try_from_graph_no_false_cycle (v : View) (hc : Closed v) (hv : ViewOk v)
+    (hsrc : ∀ x y, y ∈ v.succ x → x ∈ v.g.nodes) (hnb : ∀ x ∈ v.g.nodes, x < v.nb)
+    (hac : Dag.Acyclic v.g) :
+    (toposort v = none ∧ tryFromGraph v = .error "FUEL") ∨ ∃ s, tryFromGraph v = .ok (.inr s) :=
+  tryFromGraph_acyclic hc hv hsrc hnb hac
+
+/-- the `toposort` model on an acyclic view: whenever it returns, it returns an order listing every
+node exactly once (never `Err(Cycle(_))`), and it does return when the fuel hypothesis holds. -/
+theorem C14_toposort_complete (v : View) (hc : Closed v) (hv : ViewOk v)
+    (hsrc : ∀ x y, y ∈ v.succ x → x ∈ v.g.nodes) (hac : Dag.Acyclic v.g) :
+    (∀ r, toposort v = some r → ∃ order, r = .inr order ∧ order.Nodup ∧ ∀ x, x ∈ order ↔ x ∈ v.g.nodes) ∧
+    (TopoFuelOk v → ∃ r, toposort v = some r) :=
+  ⟨fun _ h => toposort_acyclic hc hv hsrc hac h, fun hf => toposort_total hc hv hsrc hac hf⟩
+
+/-- **`try_from_graph` (completeness)** — `C14_try_from_graph_complete_statement` repaired with the
+fuel hypothesis: every acyclic graph is accepted (the model neither reports a cycle nor runs out of
+fuel nor panics). -/
+theorem C14_try_from_graph_complete (v : View) (hc : Closed v) (hv : ViewOk v)
+    (hsrc : ∀ x y, y ∈ v.succ x → x ∈ v.g.nodes) (hnb : ∀ x ∈ v.g.nodes, x < v.nb)
+    (hac : Dag.Acyclic v.g) (hfuel : TopoFuelOk v) : ∃ s, tryFromGraph v = .ok (.inr s) :=
+  tryFromGraph_complete hc hv hsrc hnb hac hfuel
+
+/-- the fuel hypothesis holds whenever the successor lists together are no longer than the edge list
+(every edge is listed once by the `neighbors` of its source — what a real graph does) -/
+theorem C14_fuelOk_of_edge_count (v : View)
+    (h : (v.g.nodes.map fun x => (v.succ x).length).sum ≤ v.g.edges.length) : TopoFuelOk v := by
+  unfold TopoFuelOk
+  rw [needL_nil_eq]
+  unfold tsFuel
+  omega
+
+/-- **`try_from_graph` / `TryFrom` accept exactly the acyclic graphs** (soundness + completeness):
+on a well-formed directed view whose neighbour lists fit the fuel, the model answers `Ok` iff the
+graph has no directed cycle, and `Err(Cycle(_))` iff it has one. -/
+theorem C14_try_from_graph_exact (v : View) (hc : Closed v) (hv : ViewOk v)
+    (hsrc : ∀ x y, y ∈ v.succ x → x ∈ v.g.nodes) (hd : v.g.directed = true)
+    (hwf : ∀ e ∈ v.g.edges, e.src ∈ v.g.nodes ∧ e.tgt ∈ v.g.nodes)
+    (hnb : ∀ x ∈ v.g.nodes, x < v.nb) (hfuel : TopoFuelOk v) :
+    ((∃ s, tryFromGraph v = .ok (.inr s)) ↔ Dag.Acyclic v.g) ∧
+    (∀ x, tryFromGraph v = .ok (.inl x) → ¬ Dag.Acyclic v.g) := by
+  refine ⟨⟨?_, fun hac => tryFromGraph_complete hc hv hsrc hnb hac hfuel⟩, ?_⟩
+  · rintro ⟨s, hs⟩
+    exact inv2_acyclic (tryFromGraph_sound hc hv hsrc hs) hd hwf
+  · intro x hx hac
+    obtain ⟨s, hs⟩ := tryFromGraph_complete hc hv hsrc hnb hac hfuel
+    rw [hx] at hs
+    cases hs
+
 /-! ### non-vacuity: a concrete state meets the hypotheses and exercises a reorder -/
 
 /-- inner graph `0 → 1`, nodes `0 1 2`, in concrete indices -/
@@ -346,6 +462,9 @@ def exView : View :=
 
 def exState : AState := { om := { p2n := [(0, 0), (1, 1), (2, 2)], n2p := [0, 1, 2] }, cap := 3 }
 
+/-- the example view meets the fuel hypothesis of `C14_try_from_graph_complete` and is accepted -/
+example : TopoFuelOk exView := by unfold TopoFuelOk; decide
+
 def okOf {α : Type} : Except String α → Option α
   | .ok a => some a
   | .error _ => none
@@ -354,6 +473,8 @@ example : (okOf (tryAddEdge exView exState 2 0)).map (fun r => (r.1.om.p2n, r.1.
     some ([(0, 2), (1, 0), (2, 1)], [1, 2, 0], .accepted) := by decide
 example : (okOf (tryAddEdge exView exState 1 0)).map (·.2) = some (.cycle 0) := by decide
 example : (okOf (isValidEdge exView exState 1 0)).map (·.2) = some false := by decide
+example : (okOf (tryFromGraph exView)).map (fun r => r.elim (fun _ => []) (·.om.p2n)) =
+    some [(0, 2), (1, 0), (2, 1)] := by decide
 
 example : Inv exView exState := by
   refine ⟨⟨by unfold Sorted; decide, ?_, ?_⟩, ⟨rfl, rfl⟩, ?_⟩
